@@ -9,6 +9,7 @@ import (
 	"math"
 	"os"
 	"path/filepath"
+	"syscall"
 
 	"github.com/spf13/afero"
 
@@ -387,6 +388,18 @@ func (h *Handler) HandleDeleteFile(ctx *Context, path string) error {
 		return ErrWriteForbidden
 	}
 
+	// Remove deletes whatever the name points to, but this command is for files only
+	info, err := h.lstat(path)
+	if err != nil {
+		log.WarnContext(ctx, "Stat failed", logutil.ErrorAttr(err))
+		return err
+	}
+
+	if info.IsDir() {
+		log.WarnContext(ctx, "Not a file")
+		return &fs.PathError{Op: "remove", Path: path, Err: syscall.EISDIR}
+	}
+
 	if err := h.Fs.Remove(path); err != nil {
 		log.WarnContext(ctx, "Remove file failed", logutil.ErrorAttr(err))
 		return err
@@ -421,12 +434,40 @@ func (h *Handler) HandleRmdir(ctx *Context, path string) error {
 		return ErrWriteForbidden
 	}
 
+	// Remove deletes whatever the name points to, but this command is for directories only
+	info, err := h.lstat(path)
+	if err != nil {
+		log.WarnContext(ctx, "Stat failed", logutil.ErrorAttr(err))
+		return err
+	}
+
+	if !info.IsDir() {
+		log.WarnContext(ctx, "Not a directory")
+		return &fs.PathError{Op: "rmdir", Path: path, Err: syscall.ENOTDIR}
+	}
+
+	// served root itself must stay
+	if filepath.Clean(string(filepath.Separator)+path) == string(filepath.Separator) {
+		log.WarnContext(ctx, "Refusing to remove root directory")
+		return &fs.PathError{Op: "rmdir", Path: path, Err: syscall.EBUSY}
+	}
+
 	if err := h.Fs.Remove(path); err != nil {
 		log.WarnContext(ctx, "Remove directory failed", logutil.ErrorAttr(err))
 		return err
 	}
 
 	return nil
+}
+
+// lstat returns info about path itself (not about symlink target) if filesystem is able to provide it.
+func (h *Handler) lstat(path string) (fs.FileInfo, error) {
+	if lstater, ok := h.Fs.(afero.Lstater); ok {
+		info, _, err := lstater.LstatIfPossible(path)
+		return info, err
+	}
+
+	return h.Fs.Stat(path)
 }
 
 // fsOnly needed to detach all "optional" interfaces like afero.Lstater.
